@@ -14,7 +14,7 @@
 (* F of faces (triples of vertex ids).  Grid points and cells are 0-based  *)
 (* triples; a cell is named by its lowest corner.                          *)
 (*                                                                         *)
-(* Magnitude bounds (TLC integers are 32 bit): coordinates < 2^21 and      *)
+(* Magnitude bounds (TLC integers are 32 bit): coordinates < 2^20 and      *)
 (* |f1-f0| <= 500 keep every product below 2^31; SignedVol6 uses BigInt.   *)
 (***************************************************************************)
 EXTENDS Integers, Sequences, FiniteSets, Rat
@@ -111,22 +111,21 @@ Flip(f) == <<f[3], f[2], f[1]>>
 (* the mesh for the other gradient direction is the same mesh with every face reversed *)
 ReversedMesh(F1, F2) == Len(F1) = Len(F2) /\ FaceClasses(F1) = {Rotations(Flip(F2[i])) : i \in DOMAIN F2}
 
-LOCAL Small(v) == AbsI(v[1]) <= 700 /\ AbsI(v[2]) <= 700 /\ AbsI(v[3]) <= 700
-LOCAL Det3(a, b, c) == a[1] * (b[2] * c[3] - b[3] * c[2]) - a[2] * (b[1] * c[3] - b[3] * c[1])
-                       + a[3] * (b[1] * c[2] - b[2] * c[1])
-LOCAL M2(x, y, z, w) == BSub(BMul(BFromInt(x), BFromInt(y)), BMul(BFromInt(z), BFromInt(w)))
-LOCAL Det3B(a, b, c) ==
-  BAdd(BSub(BMul(BFromInt(a[1]), M2(b[2], c[3], b[3], c[2])),
-            BMul(BFromInt(a[2]), M2(b[1], c[3], b[3], c[1]))),
-       BMul(BFromInt(a[3]), M2(b[1], c[2], b[2], c[1])))
-FaceDet(V, f) == LET a == V[f[1]] b == V[f[2]] c == V[f[3]]
-                 IN IF Small(a) /\ Small(b) /\ Small(c) THEN BFromInt(Det3(a, b, c)) ELSE Det3B(a, b, c)
-(* six times the signed volume enclosed by the mesh, in (1/q)^3 units (exact) *)
-RECURSIVE SumDet(_, _, _, _)
-SumDet(V, F, lo, hi) == IF lo > hi THEN BZero
-                        ELSE IF lo = hi THEN FaceDet(V, F[lo])
-                        ELSE LET m == (lo + hi) \div 2 IN BAdd(SumDet(V, F, lo, m), SumDet(V, F, m + 1, hi))
-SignedVol6(V, F) == SumDet(V, F, 1, Len(F))
+(* Six times the signed volume enclosed by a CLOSED mesh, in (1/q)^3 units, exact: by  *)
+(* the divergence theorem along the third axis, volume = sum over faces of (signed    *)
+(* area of the projection on axes 1,2) x (mean third coordinate).  Magnitudes: the    *)
+(* extent of a face <= 32000 units keeps A2 below 2^31; the product and the sum are   *)
+(* BigInt.                                                                            *)
+FaceVol(V, f) ==
+  LET a == V[f[1]]  b == V[f[2]]  c == V[f[3]]
+      A2 == (b[1] - a[1]) * (c[2] - a[2]) - (b[2] - a[2]) * (c[1] - a[1])
+      S3 == a[3] + b[3] + c[3]
+  IN IF AbsI(A2) <= 40000 /\ AbsI(S3) <= 40000 THEN BFromInt(A2 * S3) ELSE BMul(BFromInt(A2), BFromInt(S3))
+RECURSIVE SumVol(_, _, _, _)
+SumVol(V, F, lo, hi) == IF lo > hi THEN BZero
+                        ELSE IF lo = hi THEN FaceVol(V, F[lo])
+                        ELSE LET m == (lo + hi) \div 2 IN BAdd(SumVol(V, F, lo, m), SumVol(V, F, m + 1, hi))
+SignedVol6(V, F) == SumVol(V, F, 1, Len(F))
 (* Calibrated convention of chmpy.mc.marching_cubes (mc/_mc.py: the kernel's  *)
 (* faces are flipped for "descent"): in array-index axes with positive         *)
 (* spacings, "descent" over a region that is high inside gives a negative      *)
